@@ -179,7 +179,8 @@ func (this *Hnsw) Load(r io.Reader, header bool) error {
 		}
 		this.len += uint64(shardSize)
 
-		this.vertices[i] = make(map[uuid.UUID]*hnswVertex, int(shardSize))
+		// Do not trust the count for pre-allocation. The map grows as vertices are read.
+		this.vertices[i] = make(map[uuid.UUID]*hnswVertex)
 		verticesShard := this.vertices[i]
 
 		for i := 0; i < int(shardSize); i++ {
